@@ -1,7 +1,144 @@
 import Rie.Oracle.Core
-/-! Oracle adaptors (line protocol ↔ model) — filled in by the Sanitize work package. -/
+import Rie.Model.ErrType
+import Rie.Model.ErrorCause
+import Rie.Model.RuntimeRelease
+import Rie.Model.SanitizeInst
+
+/-! Oracle adaptors (line protocol ↔ model) for property C20: `errtype`, `errcause`, `release`.
+Byte strings travel as lower-case hex, `-` is the empty string. -/
+namespace Rie.Oracle.San
+open Rie Rie.Oracle
+
+def hexVal (c : Char) : Option Nat :=
+  if '0' ≤ c ∧ c ≤ '9' then some (c.toNat - 48)
+  else if 'a' ≤ c ∧ c ≤ 'f' then some (c.toNat - 87)
+  else if 'A' ≤ c ∧ c ≤ 'F' then some (c.toNat - 55)
+  else none
+
+def parseHexAux : List Char → List UInt8 → Option (List UInt8)
+  | [], acc => some acc.reverse
+  | [_], _ => none
+  | a :: b :: rest, acc => do
+    let x ← hexVal a
+    let y ← hexVal b
+    parseHexAux rest (UInt8.ofNat (x * 16 + y) :: acc)
+
+def parseHex (s : String) : Option (List UInt8) :=
+  if s == "-" then some [] else parseHexAux s.toList []
+
+def hexDigit (n : Nat) : Char := if n < 10 then Char.ofNat (48 + n) else Char.ofNat (87 + n)
+
+def showHex (b : List UInt8) : String :=
+  if b.isEmpty then "-"
+  else String.ofList (b.foldr (fun x acc => hexDigit (x.toNat / 16) :: hexDigit (x.toNat % 16) :: acc) [])
+
+/-! ### error type: `op errtype <hex>` → `<hex>` -/
+
+def errTypeModel : Model where
+  σ := Unit
+  init := fun _ => some ()
+  step := fun _ ws =>
+    match ws with
+    | ["errtype", h] => do
+      let s ← parseHex h
+      some ((), showHex (ErrType.sanitize s))
+    | _ => none
+
+/-! ### runtime release: `op upd <ua> <features>` → `ret=<t|f> rr=<hex>`;
+`op create <rr> <features>` → `rr=<hex>`. The state is the stored value. -/
+
+def releaseModel : Model where
+  σ := List UInt8
+  init := fun _ => some []
+  step := fun st ws =>
+    match ws with
+    | ["upd", ua, hdr] => do
+      let ua ← parseHex ua
+      let hdr ← parseHex hdr
+      let r := Release.update Rie.Gen.Sanitize.maxRuntimeReleaseLength st { ua := ua, hdr := hdr }
+      some (r.1, s!"ret={if r.2 then "t" else "f"} rr={showHex r.1}")
+    | ["create", rr, hdr] => do
+      let rr ← parseHex rr
+      let hdr ← parseHex hdr
+      some (st, s!"rr={showHex (Release.create Rie.Gen.Sanitize.maxRuntimeReleaseLength rr hdr)}")
+    | _ => none
+
+/-! ### error cause.
+`op cause en=<0|1> pn=<0|1> ex=<sizes> pa=<sizes> wd=<len>,<e0>,<e1>,<e2> msg=<len>,<e0>,<e1>,<e2>`
+carries what the model needs of the parsed document: nil-ness of the two slices, the marshalled
+size of every exception and path, and for the two strings their length and the values of the
+abstract `esc` at the three points the model can query it: the string itself (`e0`), its crop
+to `halfLen` (`e1`), and the crop of that to `escLen` (`e2`) — all measured by the harness with
+the real `encoding/json`. Exceptions and paths are represented by their sizes (`E = P = Nat`);
+a string of length `n` is represented by `n` copies of a tag byte (1 = message, 2 = working
+directory), so the `Bytes` model itself runs: lengths, `take`, `++ "..."` are real, `esc` is the
+measured table. `op causebad` (document rejected by `json.Unmarshal`) is always `dropped`.
+Observation: `dropped` or `kept total=<size> ex=<n> pa=<n> wd=<len>,<cropped> msg=<len>,<cropped>`. -/
+
+def parseNatList (s : String) : Option (List Nat) :=
+  if s == "-" then some [] else (s.splitOn ",").mapM String.toNat?
+
+def parseKV (key : String) (w : String) : Option String :=
+  if w.startsWith (key ++ "=") then some ((w.drop (key.length + 1)).toString) else none
+
+structure StrInfo where
+  len : Nat
+  e0 : Nat
+  e1 : Nat
+  e2 : Nat
+
+def parseStrInfo (s : String) : Option StrInfo :=
+  match parseNatList s with
+  | some [l, a, b, c] => some ⟨l, a, b, c⟩
+  | _ => none
+
+def StrInfo.esc (k : ErrorCause.Consts) (i : StrInfo) (n : Nat) : Nat :=
+  if n = i.len then i.e0
+  else if n = ErrorCause.halfLen k then i.e1
+  else if n = ErrorCause.escLen k then i.e2
+  else 0
+
+def causeEnc (k : ErrorCause.Consts) (msg wd : StrInfo) : ErrorCause.Enc Nat Nat where
+  esc := fun b =>
+    match b.head? with
+    | some 1 => msg.esc k b.length
+    | some 2 => wd.esc k b.length
+    | _ => 2
+  excSize := id
+  pathSize := id
+
+def errCauseModel : Model where
+  σ := Unit
+  init := fun _ => some ()
+  step := fun _ ws =>
+    match ws with
+    | ["causebad"] => some ((), "dropped")
+    | ["cause", en, pn, ex, pa, wd, msg] => do
+      let en ← parseKV "en" en
+      let pn ← parseKV "pn" pn
+      let ex ← (parseKV "ex" ex) >>= parseNatList
+      let pa ← (parseKV "pa" pa) >>= parseNatList
+      let wd ← (parseKV "wd" wd) >>= parseStrInfo
+      let msg ← (parseKV "msg" msg) >>= parseStrInfo
+      let k := ErrorCause.gen
+      let c : ErrorCause.Cause Nat Nat :=
+        { exceptions := ex, excNil := en == "1", workingDir := List.replicate wd.len 2,
+          paths := pa, pathsNil := pn == "1", message := List.replicate msg.len 1 }
+      let enc := causeEnc k msg wd
+      match ErrorCause.validated k enc c with
+      | none => some ((), "dropped")
+      | some o =>
+        let b (x : Bool) : String := if x then "1" else "0"
+        some ((), s!"kept total={ErrorCause.size k enc o} ex={o.exceptions.length} pa={o.paths.length} " ++
+          s!"wd={o.workingDir.length},{b (o.workingDir != c.workingDir)} " ++
+          s!"msg={o.message.length},{b (o.message != c.message)}")
+    | _ => none
+
+end Rie.Oracle.San
+
 namespace Rie.Oracle
 
-def sanitizeModels : List (String × Model) := []
+def sanitizeModels : List (String × Model) :=
+  [("errtype", San.errTypeModel), ("errcause", San.errCauseModel), ("release", San.releaseModel)]
 
 end Rie.Oracle
